@@ -10,6 +10,11 @@ EXTENDS Util
 TmOf(j) == [Q |-> ToSet(j.Q), S |-> ToSet(j.S), G |-> ToSet(j.G), T |-> ToSet(j.T),
             q0 |-> j.q0, qa |-> j.qa, qr |-> j.qr, blank |-> j.blank]
 
+ValidTM(T) ==
+  /\ T.q0 \in T.Q /\ T.qa \in T.Q /\ T.qr \in T.Q /\ T.qa # T.qr
+  /\ T.blank \notin T.S /\ T.blank \in T.G /\ T.S \subseteq T.G
+  /\ \A t \in T.T : t[1] \in T.Q /\ t[2] \in T.G /\ t[3] \in T.Q /\ t[4] \in T.G /\ t[5] \in {"L", "R"}
+
 Halting(T, q) == q \in {T.qa, T.qr}
 InitConf(T, w) == [q |-> T.q0, tape |-> IF w = <<>> THEN <<T.blank>> ELSE w, head |-> 0]
 
